@@ -194,7 +194,12 @@ class Run:
         out_lines = []
         nviol = 0
         # a break without a concrete violation -> run the falsifier
-        if self.breaks and not self.violations and hasattr(mod, 'falsify'):
+        def _is_known(v):
+            key = v['replay'].get('key') if isinstance(v['replay'], dict) else None
+            return any(k['property'] == self.pid and key and k['key'] == key for k in known)
+        if self.breaks and not [v for v in self.violations if not _is_known(v)] and hasattr(mod, 'falsify') \
+                and not getattr(self, 'falsified', False):
+            self.falsified = True
             self.log("running falsifier on the implementation ...")
             try:
                 mod.falsify(self)
